@@ -80,7 +80,12 @@ def run_one(m, tier='quick', only=None):
         if 'patch' in m:
             applied = subprocess.run(['git', 'apply', '--whitespace=nowarn', m['patch']], cwd=root, capture_output=True).returncode == 0
         else:
-            applied = apply_edits(root, m['edits'])
+            applied = True
+            if m.get('base_patch'):
+                # a behaviour-preserving refactoring first (stored under /verif/refactors), then the breaking edit on top of it
+                bp = os.path.join(os.path.dirname(HERE), m['base_patch'])
+                applied = subprocess.run(['git', 'apply', '--whitespace=nowarn', bp], cwd=root, capture_output=True).returncode == 0
+            applied = applied and apply_edits(root, m['edits'])
         if not applied:
             return dict(id=m['id'], status='skipped', reason='patch does not apply to the current tree')
         env = dict(os.environ, EVX_REPO=root, EVX_NO_EXTRAS='1')
